@@ -212,9 +212,9 @@ def corr_exhaustive(ck: Ck) -> None:
             # quick tier: <= 4 segments; the big blocks compare normpath, unify_path and two of the six roots (rotating
             # with the combination, so every root meets every separator pattern); 5 segments only when escalated
             some = [0, 1, 2, 3 + c % 6, 3 + (c + 3) % 6]
-            # escalated quick tier (a tie is broken / _resolve_path changed): all functions, 5 segments on a third
+            # escalated quick tier (a tie is broken / _resolve_path changed): all functions on every block
             parts = [('alpha', n, allf if (full or n <= 3) else some) for n in range(0, 5)]
-            if ck.thorough or (full and (pi + kind) % 3 == 0):
+            if ck.thorough:
                 parts.append(('alpha', 5, allf))
             # second alphabet (backslash-carrying and non-ASCII segments): <= 3 segments, 4 in the thorough tier
             parts += [('alpha2', n, allf if (full or n <= 2) else some) for n in range(1, (4 if ck.thorough else 3) + 1)]
@@ -940,7 +940,7 @@ def run(ck: Ck) -> None:
         if side.get('resolve_digest') not in PINNED_DIGESTS:
             # DESIGN 5.4: a changed hand-modelled function escalates the correspondence budget, it is not an alarm
             ck.notes.append('RawFileSystem._resolve_path differs from the texts the model was written against: '
-                            'correspondence runs with the thorough budget')
+                            'correspondence compares every function on every block (escalated budget)')
             ESCALATE.append(True)
         t = _stage(ck, 'translate+build+obligations', t)
         corr_exhaustive(ck)
